@@ -45,6 +45,11 @@ def corpus():
         "plan 0 scenario=73,maxdur=10000000000,conc=2,maxit=0,igndrop=1 mode=%s dur=5,conc=0" % hx("users"),
         "plan 0 scenario=73,maxdur=10000000000,conc=2,maxit=0,igndrop=1 mode=%s,conc=0 dur=5" % hx("users"),   # default concurrency 0 inherited
         "plan 0 scenario=73,maxdur=10000000000,conc=2,maxit=0,igndrop=1 mode=%s,conc=-3 dur=5" % hx("users"),
+        "gaussvol %s %d %d" % (hx("3/1500us"), 50400 * _plan.S, 9000 * _plan.S),     # units with a fractional-millisecond part
+        "gaussvol %s %d %d" % (hx("1/500us"), 50400 * _plan.S, 9000 * _plan.S),
+        "gaussvol %s %d %d" % (hx("7/s"), 50400 * _plan.S, 9000 * _plan.S),
+        "gaussvol %s %d %d" % (hx("7"), 50400 * _plan.S, 9000 * _plan.S),
+        "gaussvol %s %d %d" % (hx("1/ns"), 3600 * _plan.S, 60 * _plan.S),
     ] + _plan.cli_corpus()
 
 
@@ -62,6 +67,11 @@ def generate(rng, tier):
         out.append(_plan.calc_case(rng))
     while len(out) < n:
         out.append(_plan.plan_case(rng, valid_bias=0.55))
+    # --peak-rate of the gaussian trigger: a rate string too, with units down to nanoseconds
+    for _ in range({"quick": 60, "thorough": 1500, "search": 400}[tier]):
+        r = _plan.rate_string(rng) if rng.random() < 0.4 else "%d/%s" % (rng.choice([0, 1, 3, 5, 1000]), rng.choice(
+            ["s", "ms", "us", "µs", "ns", "m", "h", "500us", "1500us", "2.5ms", "100000ns", "0.5s", "1.5s", "90s", "250ms", "1m30s"]))
+        out.append("gaussvol %s %d %d" % (hx(r), rng.choice([0, 3600, 50400]) * _plan.S, rng.choice([0, -1, 60, 9000, 9000]) * _plan.S))
     # flag level: real command lines through F1.ExecuteWithArgs (wall-clock: each accepted line runs for its --max-duration)
     for _ in range({"quick": 110, "thorough": 900, "search": 200}[tier]):
         out.append(_plan.cli_case(rng, rng.choice([None, None, None, "reject"])))
@@ -71,6 +81,8 @@ def generate(rng, tier):
 def compare(rec):
     if rec["case"].startswith("cli "):
         return _plan.cli_compare(rec)
+    if rec["case"].startswith("plan "):
+        return _plan.plan_compare(rec)
     if rec["model"] == "-":
         return None
     if rec["impl"] != rec["model"]:
@@ -84,7 +96,7 @@ def nontrivial_key(rec):
         return c
     if c.startswith("parserate") and "2f" in c.split()[1]:
         return c
-    if c.startswith(("calc.", "plan", "parsestages")):
+    if c.startswith(("calc.", "plan", "parsestages", "gaussvol")):
         return c
     return None
 
